@@ -887,7 +887,8 @@ theorem pca_embedding {out : PcaOut α} (h : pcaFit F nRow nCol a nnz nc nm solv
 
 /-- **C09 / PCA: triplets and unit norm.**  The public triplets are the solver's, hence (under the contract) singular
     triplets of the centred matrix `A − 1μᵀ` of the specification; with `normalized=True` every non-null row of
-    `embedding_row_` has Euclidean norm 1. -/
+    `embedding_row_` has Euclidean norm 1 (stated for the rows; `embedding_col_` goes through the same `normalize2`,
+    see `pca_embedding`). -/
 theorem pca_triplets_unit {out : PcaOut α} (h : pcaFit F nRow nCol a nnz nc nm solver = .ok out)
     (hsol : IsSingularTriplets (pcaOperator nRow nCol a) (pcaSol nRow nCol a nc solver).1
       (pcaSol nRow nCol a nc solver).2.1 (pcaSol nRow nCol a nc solver).2.2)
